@@ -16,6 +16,8 @@ type Clause struct {
 	Tags   []string // property ids
 	Label  string
 	Expr   string // Go expression (after ==> rewriting)
+	Ante   string // antecedent of a top-level implication (vacuity check)
+	AnteFn string
 	Raw    string
 	Name   string // let: variable name
 	Type   string // let: Go type
@@ -31,6 +33,7 @@ type LoopSpec struct {
 	Invariants []*Clause
 	Iters      []*Clause
 	Lets       []*Clause
+	IterLets   []*Clause // evaluated at the start of every iteration (after the loop cut)
 	Assigns    []string
 	Tags       []string
 }
@@ -299,6 +302,9 @@ func ParseContracts(lines, poss []string) (*Contracts, error) {
 					cur.Loops[ord] = ls
 				}
 				sub := f[1]
+				if j := strings.Index(sub, "["); j >= 0 {
+					sub = sub[:j]
+				}
 				subrest := strings.TrimSpace(rest[strings.Index(rest, sub)+len(sub):])
 				var ltags []string
 				if strings.HasPrefix(subrest, "[") {
@@ -320,13 +326,17 @@ func ParseContracts(lines, poss []string) (*Contracts, error) {
 					c := &Clause{Kind: "iter", Tags: ltags, Raw: subrest, Loop: ord, Line: pos}
 					ls.Iters = append(ls.Iters, c)
 					lastClause = c
-				case "let":
+				case "let", "iterlet":
 					m := regexp.MustCompile(`^(\w+)\s+(.+?)\s*=\s*(.*)$`).FindStringSubmatch(subrest)
 					if m == nil {
 						return nil, fmt.Errorf("%s: malformed loop let", pos)
 					}
 					c := &Clause{Kind: "let", Name: m[1], Type: m[2], Raw: m[3], Loop: ord, Line: pos}
-					ls.Lets = append(ls.Lets, c)
+					if sub == "let" {
+						ls.Lets = append(ls.Lets, c)
+					} else {
+						ls.IterLets = append(ls.IterLets, c)
+					}
 					lastClause = c
 				case "assigns":
 					for _, a := range strings.Split(subrest, ";") {
@@ -355,6 +365,9 @@ func ParseContracts(lines, poss []string) (*Contracts, error) {
 			r = m[2]
 		}
 		c.Expr = rewriteImplies(r)
+		if a, ok := topAntecedent(r); ok && (c.Kind == "ensures" || c.Kind == "iter") {
+			c.Ante = rewriteImplies(a)
+		}
 	}
 	for _, fc := range cs.Funcs {
 		for _, c := range fc.Requires {
@@ -374,6 +387,9 @@ func ParseContracts(lines, poss []string) (*Contracts, error) {
 				fix(c)
 			}
 			for _, c := range l.Lets {
+				fix(c)
+			}
+			for _, c := range l.IterLets {
 				fix(c)
 			}
 		}
@@ -546,4 +562,34 @@ func rewriteBlock(s string) string {
 		}
 	}
 	return strings.Join(parts, ";")
+}
+
+// topAntecedent returns A for a clause of the form  A ==> B  (top level).
+func topAntecedent(s string) (string, bool) {
+	depth := 0
+	inStr := byte(0)
+	for i := 0; i < len(s); i++ {
+		ch := s[i]
+		if inStr != 0 {
+			if ch == '\\' {
+				i++
+			} else if ch == inStr {
+				inStr = 0
+			}
+			continue
+		}
+		switch ch {
+		case '"', '\'', '`':
+			inStr = ch
+		case '(', '{', '[':
+			depth++
+		case ')', '}', ']':
+			depth--
+		case '=':
+			if depth == 0 && strings.HasPrefix(s[i:], "==>") {
+				return s[:i], true
+			}
+		}
+	}
+	return "", false
 }
